@@ -84,6 +84,8 @@ MultiHonestOk(r) ==
                      ELSE IF q.q = "valuex" THEN "false"          \* another key's value hash is never this key's value
                      ELSE ExpectNonexist(kv, q.k)
             IN q.ans = e /\ q.ansIdx = e
+       \* a malformed operation list (unsorted, duplicated or out-of-scope key) gets an error, never a root or a panic (C18)
+       /\ "updBad" \in DOMAIN r => r.updBad.res \notin {"Ok", "PANIC"}
        /\ "upd" \in DOMAIN r =>
             /\ r.upd.multiRes = "Ok" /\ r.upd.pathRes = "Ok"
             /\ KvOf(r.upd.newKv) = ApplyOps(kv, r.upd.ops)
